@@ -214,13 +214,14 @@ PROPS = {
         scope="comment skipping in the lexer",
         assumptions=[]),
     "C30": dict(
-        units=["u11_lexer", "u4a_ctrl"], level="model_checking",
+        units=["u11_lexer", "u4a_ctrl", "u18_literals"], level="model_checking",
         level_text=("Lexer half: handle_num token text/kind/length (digits in order, `_` removed, one `.` kept); process_escapes_into equals the spec function "
                     "unescape (\\n \\t \\r \\\" \\' \\\\ \\xNN) with a diagnostic iff any other escape; scan_for_unescaped_delim returns the first delimiter after an "
                     "even backslash run. VM half (Verus, unbounded): PushInt/PushFloat/PushString push exactly the constant-table entry they name."),
         level_note=("Bounded input length (<= 3-6 chars). Escapes are checked on the R7 copy (format! replaced). The escape spec is written from the property "
-                    "statement (the book does not document escapes). Not covered: multiline strings and indentation stripping, negation and range checks "
-                    "(parse.rs), str::parse::<i64/f64> (trusted std), constant-table construction in the assembler."),
+                    "statement (the book does not document escapes). Not covered by contracts: multiline strings and indentation stripping; the parser's literal arms "
+                    "(negation, range checks in parse_expr_term, str::parse) - for those a fixed table of boundary literals is run on the real CLI "
+                    "(unit u18_literals: bounded black-box stand-in, labelled so); constant-table construction in the assembler."),
         technique="Kani/CBMC bounded function-level verification of the verbatim lexer.rs + Verus on the constant-pushing arms",
         scope="numeric literal scanning, escapes, delimiter scanning; constant pushes",
         assumptions=[]),
